@@ -114,6 +114,14 @@ def cases(tier):
             idx += 1
             yield {'fam': 'scope', 'nest': [list(levels[i]) for i in nest],
                    'syntax': SYNTAXES[idx % 3]}
+            if d <= 3:
+                # the innermost body raises / returns; an enclosing try (or
+                # the calling template) goes on: nothing may stay bound
+                for how in ('raise', 'return'):
+                    idx += 1
+                    yield {'fam': 'scope', 'how': how,
+                           'nest': [list(levels[i]) for i in nest],
+                           'syntax': SYNTAXES[idx % 3]}
 
 
 # ---------------------------------------------------------------- src
@@ -209,8 +217,15 @@ def build_scope(case):
     ns = {'n': ['lit', 'OUT'], 'm0': ['lit', 'M']}
     counter = [0]
 
+    how = case.get('how')
+
     def level(i, nest):
         if i == len(nest):
+            if how == 'raise':
+                ns['coreboom'] = ['raiser', 'coreboom', 'HC', 'core']
+                return probe('core') + [['var', N('coreboom'), []]]
+            if how == 'return':
+                return probe('core') + [['return', N('m0')]]
             return probe('core')
         kind, rebind = nest[i]
         counter[0] += 1
@@ -260,7 +275,14 @@ def build_scope(case):
             node = ['var', N('sub%d' % k), []]
         return [node]
 
-    nodes = probe('pre') + level(0, case['nest']) + probe('post')
+    body = level(0, case['nest'])
+    if how == 'raise':
+        body = [['try', body, [[['HC'], probe('caught')]], None]]
+    elif how == 'return':
+        # the blocks live in a sub-template; its dtml-return ends only it
+        ns['wrapped'] = ['tmpl', body, {}]
+        body = [['var', N('wrapped'), []]]
+    nodes = probe('pre') + body + probe('post')
     return nodes, ns
 
 
@@ -299,7 +321,8 @@ def run(case):
         ro, rlog, unspec = observe(nodes, ns, case['syntax'], 'ref')
         src = ast.to_source(nodes, case['syntax'])
         n_def = 1 + sum(1 for b, r in case['nest'] if r)
-        tag = 'scope:%s' % '>'.join(b for b, r in case['nest'])
+        tag = 'scope%s:%s' % ('-' + case['how'] if case.get('how') else '',
+                              '>'.join(b for b, r in case['nest']))
     if unspec:
         res.outcome = 'unspec'
         return res
